@@ -5,7 +5,13 @@ import "fmt"
 func init() {
 	generators["C01"] = func(p *Plan, r *RNG) { withRace(p, r, 6, func() { genMix(p, r, "C01") }) }
 	generators["C02"] = func(p *Plan, r *RNG) { withRace(p, r, 6, func() { genMix(p, r, "C02") }) }
-	generators["C04"] = func(p *Plan, r *RNG) { genMix(p, r, "C04") }
+	generators["C04"] = func(p *Plan, r *RNG) {
+		if r.Chance(1, 6) {
+			genC04XL(p, r)
+			return
+		}
+		genMix(p, r, "C04")
+	}
 	generators["C05"] = func(p *Plan, r *RNG) { genMix(p, r, "C05") }
 	generators["C08"] = func(p *Plan, r *RNG) { genMix(p, r, "C08") }
 	generators["C19"] = func(p *Plan, r *RNG) { withRace(p, r, 6, func() { genMix(p, r, "C19") }) }
@@ -156,6 +162,16 @@ func genMix(p *Plan, r *RNG, bias string) {
 		}
 		p.Ops = append(p.Ops, o)
 		allocOps[c] = len(p.Ops) // 1-based op id after numbering
+		if bias == "C19" && i == 0 && r.Chance(1, 10) {
+			// the write of this very success response fails (the 401 challenge is the first
+			// write on the listener, the success the second); the client retransmits
+			p.Flavor += "+lost-allocate-ok"
+			p.IOFaults = append(p.IOFaults, IOFault{M: Match{Sock: "listener", Op: "WriteTo", Nth: 2}, Do: "error"})
+			p.Ops = append(p.Ops, Op{Actor: c, Kind: "retransmit", At: gap(int64(r.Range(100, 1500)) * ms), A: OpArgs{N: allocOps[c]}})
+			if r.Chance(1, 2) {
+				p.Ops = append(p.Ops, Op{Actor: c, Kind: "retransmit", At: gap(int64(r.Range(100, 1500)) * ms), A: OpArgs{N: allocOps[c]}})
+			}
+		}
 	}
 	type bound struct {
 		n    int
@@ -286,4 +302,52 @@ func genMix(p *Plan, r *RNG, bias string) {
 	}
 	p.QuietNS = int64(r.PickInt([]int{5, 30, 700})) * sec
 	addFaults(p, r, faultLevel(r))
+	if r.Chance(1, 5) {
+		addOverlap(p, r)
+	}
+}
+
+// addOverlap parks the socket write of one relayed datagram and lets other relayed traffic -
+// copies of other relay operations of the plan, mostly other allocations' - pass meanwhile.
+// Whatever the parked write still shares with the rest of the server (a buffer, a cached
+// lookup) shows as an altered, duplicated or misdirected datagram.
+func addOverlap(p *Plan, r *RNG) {
+	var idx []int
+	for i, o := range p.Ops {
+		if (o.Kind == "peer_send" || o.Kind == "send" || o.Kind == "chandata") && o.At.Ref == "" && i+1 < len(p.Ops) {
+			idx = append(idx, i)
+		}
+	}
+	if len(idx) < 2 {
+		return
+	}
+	i := idx[r.Intn(len(idx))]
+	x := p.Ops[i]
+	cls := "sock:relay:WriteTo"
+	if x.Kind == "peer_send" {
+		cls = "sock:listener:WriteTo"
+		if p.Cfg.Listener == "tcp" {
+			cls = "sock:listener-conn:Write"
+		}
+	}
+	park := r.PickI64([]int64{5 * ms, 100 * ms, sec})
+	p.Stalls = append(p.Stalls, Stall{M: Match{Class: cls, Args: "*", Nth: 1}, ParkNS: park, AfterOp: i + 1})
+	// other relay operations during the park, preferring other parties
+	var ins []Op
+	for k := r.Range(1, 3); k > 0; k-- {
+		j := idx[r.Intn(len(idx))]
+		for tries := 0; tries < 4 && (p.Ops[j].Actor == x.Actor && p.Ops[j].A.Target == x.A.Target); tries++ {
+			j = idx[r.Intn(len(idx))]
+		}
+		o := p.Ops[j]
+		o.At = gap(park / 4)
+		if x.Kind == "peer_send" && j == i {
+			o.At = gap(park / 8)
+		}
+		ins = append(ins, o)
+	}
+	ops := append([]Op{}, p.Ops[:i+1]...)
+	ops = append(ops, ins...)
+	p.Ops = append(ops, p.Ops[i+1:]...)
+	p.Flavor += "+overlap"
 }
